@@ -227,3 +227,48 @@ def family_dyn(tier, seed, n=None):
         rnd = random.Random((606 if core else 6100 + seed) * 100003 + t)
         out.append(hist_dyn(rnd, "DY/%s/%d" % ("core" if core else "s%d" % seed, t), rnd.randint(4, 8)))
     return out
+
+
+def family_dyn_member_foreach(tier, seed, n=None):
+    """a dynamic block that CONTAINS a foreach, owned by a member object (random or not) or by a list element and referenced
+    through the parent's call (it.s.dq()): it is unrolled over the member's list as it is at THAT call - the list grows and
+    shrinks between calls - and leaves nothing behind for plain calls"""
+    out = []
+    n = n or (6 if tier == "quick" else 36)
+    IT = {"k": "it", "v": "q", "p": ""}
+    for t in range(n):
+        rnd = random.Random(6200 + t + (seed if t >= n // 2 else 0) * 1000)
+        S = {"base": "", "fields": [fld("x", 2, False),
+                                    {"name": "il", "kind": "list", "w": 2, "signed": False, "rand": True, "init": [0, 0], "randsz": False, "cap": 4}],
+             "blocks": [{"name": "sc", "dynamic": False, "body": [E(B("ne", F("x"), lit(rnd.randrange(4))))]},
+                        {"name": "dq", "dynamic": True,
+                         "body": [{"k": "foreach", "l": "il", "v": "q", "it": True, "idx": False, "of": "",
+                                   "body": [E(B(rnd.choice(["le", "lt", "eq"]), IT, F("x")))]}]}]}
+        where = ["s", "m", "ol[0]", "s", "ol[1]", "ol[0]"][t % 6]          # random member, non-random member, list element
+        H = {"base": "", "fields": [fld("y", 2, False), {"name": "s", "kind": "obj", "cls": "S", "rand": True},
+                                    {"name": "m", "kind": "obj", "cls": "S", "rand": False},
+                                    {"name": "ol", "kind": "objlist", "cls": "S", "n": 2, "rand": True}],
+             "blocks": [{"name": "hc", "dynamic": False, "body": [E(B("le", F("s.x"), F("y")))]}]}
+        world = {"classes": {"S": S, "H": H}, "population": [{"id": "h1", "cls": "H"}]}
+        base = "h1." + where
+        inl = [E(DYN(where, "dq"))]
+        if t % 6 == 5:
+            # ... of EVERY element, referenced by index inside an inline foreach over the object list
+            inl = [{"k": "foreach", "l": "ol", "v": "j", "it": False, "idx": True, "of": "",
+                    "body": [E({"k": "dyni", "l": "ol", "i": {"k": "ix", "v": "j"}, "b": "dq"})]}]
+
+        def pr(call_inl, k_):
+            # every scalar of the tree that is random in the call is pinned: the edited list has k_ elements, the others two
+            paths = ["h1.y"]
+            for o_ in ("s", "ol[0]", "ol[1]"):
+                paths += ["h1.%s.x" % o_] + ["h1.%s.il[%d]" % (o_, i) for i in range(k_ if o_ == where else 2)]
+            return {"op": "probe", "call": wcall(call_inl, "h1"), "mode": "around", "nsol": 3, "cap": 120, "paths": paths}
+        ops = [{"op": "construct", "o": "h1"}, {"op": "call", "call": wcall(inl, "h1")}, pr(inl, 2),
+               {"op": "list", "kind": "l_append", "p": base + ".il", "vs": [bits(3, 2)]},
+               {"op": "call", "call": wcall(inl, "h1")}, pr(inl, 3), {"op": "call", "call": mcall("h1")}, pr([], 3),
+               {"op": "list", "kind": "l_assign", "p": base + ".il", "vs": [bits(2, 2)]},
+               {"op": "call", "call": wcall(inl, "h1")}, pr(inl, 1),
+               {"op": "list", "kind": "l_extend", "p": base + ".il", "vs": [bits(3, 2), bits(3, 2)]},
+               {"op": "call", "call": wcall(inl + [E(B("ne", F("y"), lit(0)))], "h1")}, pr(inl, 3), {"op": "call", "call": mcall("h1")}]
+        out.append({"id": "DY/memberfe/%s/%d" % (where.replace("[", "").replace("]", ""), t), "world": world, "ops": ops, "tags": []})
+    return out
